@@ -22,7 +22,8 @@ def run(c):
     k = 4 if c.thorough else 1
     gens = [dict(kind="producers", n=1200 * k, seed=rng.getrandbits(40), depth=1, len=6, calls=10),
             dict(kind="twosided", n=1500 * k, seed=rng.getrandbits(40), depth=1, len=6, calls=14),
-            dict(kind="pipelines", n=800 * k, seed=rng.getrandbits(40), depth=1, len=6, calls=10)]
+            dict(kind="pipelines", n=800 * k, seed=rng.getrandbits(40), depth=1, len=6, calls=10),
+            dict(kind="zero", n=1, seed=rng.getrandbits(40), depth=1, len=0, calls=4)]
     out = iterlib.run_cases(c, "C20", gens, "c20")
     iterlib.count_nontrivial(c, out, "cases = (producer or one-stage pipeline or two-sided producer, source, call pattern) run on the real "
                              "library; non-trivial = repeated HasNext, consecutive Next, Next on exhausted, or calls on both sides")
